@@ -13,11 +13,14 @@ package main
 
 import (
 	"context"
+	"encoding/base64"
 	"encoding/binary"
+	"errors"
 	"fmt"
 	"io"
 	"math/rand"
 	"net"
+	"net/http"
 	"net/netip"
 	"strings"
 	"sync"
@@ -493,6 +496,90 @@ func ownMalformed(seed int64, n int) int {
 	return corrupt
 }
 
+// scenario dohcancel: a DoH upstream whose round trip is still pending when the caller's context ends. The worker
+// goroutine of the transport outlives the call by design; whatever it (and net/http) still reads must not have
+// been released by the returning caller. Other requests take and return buffers of all size classes in between;
+// the round tripper then checks the request it was given.
+type gateRT struct {
+	gate chan struct{}
+	mu   sync.Mutex
+	seen []string
+}
+
+func (g *gateRT) RoundTrip(req *http.Request) (*http.Response, error) {
+	<-g.gate
+	g.mu.Lock()
+	g.seen = append(g.seen, req.URL.RawQuery)
+	g.mu.Unlock()
+	return nil, errors.New("scripted: no reply")
+}
+
+func ownDohCancel(seed int64, n int) int {
+	r := rand.New(rand.NewSource(seed))
+	corrupt := 0
+	for i := 0; i < n; i++ {
+		rt := &gateRT{gate: make(chan struct{})}
+		tr, err := transport.NewDoHTransport(transport.DoHTransportOpts{EndPointUrl: "https://doh.test/dns-query", RoundTripper: rt})
+		if err != nil {
+			return -1
+		}
+		k := 1 + r.Intn(3)
+		want := map[string]bool{}
+		var wg sync.WaitGroup
+		for j := 0; j < k; j++ {
+			name := wireLabels([]byte(fmt.Sprintf("d%d-%d-%s", i, j, strings.Repeat("x", r.Intn(40)))), []byte("doh"))
+			q := buildQuery(uint16(r.Intn(65536)), name, 1, r.Intn(2) == 0, 1232)
+			z := append([]byte(nil), q...)
+			z[0], z[1] = 0, 0
+			want["dns="+base64.RawURLEncoding.EncodeToString(z)] = true
+			wg.Add(1)
+			dl := time.Duration(1+r.Intn(5)) * time.Millisecond
+			go func() {
+				defer wg.Done()
+				ctx, cancel := context.WithTimeout(context.Background(), dl)
+				defer cancel()
+				tr.ExchangeContext(ctx, q)
+			}()
+		}
+		wg.Wait() // every caller has given up
+		// other requests use the pool
+		var bufs []pool.Buffer
+		for _, sz := range []int{16, 40, 64, 100, 128, 200, 256, 400, 512, 1024} {
+			b := pool.GetBuf(sz)
+			for x := range b {
+				b[x] = 'X'
+			}
+			bufs = append(bufs, b)
+		}
+		for _, b := range bufs {
+			pool.ReleaseBuf(b)
+		}
+		close(rt.gate)
+		deadline := time.Now().Add(2 * time.Second)
+		for time.Now().Before(deadline) {
+			rt.mu.Lock()
+			done := len(rt.seen) == k
+			rt.mu.Unlock()
+			if done {
+				break
+			}
+			time.Sleep(time.Millisecond)
+		}
+		rt.mu.Lock()
+		if len(rt.seen) != k {
+			corrupt++
+		}
+		for _, s := range rt.seen {
+			if !want[s] {
+				corrupt++
+			}
+		}
+		rt.mu.Unlock()
+		tr.Close()
+	}
+	return corrupt
+}
+
 func runOwnership(cs string) string {
 	m := kv(cs)
 	seed := int64(atoi(m["seed"]))
@@ -510,6 +597,8 @@ func runOwnership(cs string) string {
 		corrupt = ownHandleMix(seed, atoi(m["per"]))
 	case "prefetch":
 		corrupt = ownPrefetch(seed, atoi(m["n"]))
+	case "dohcancel":
+		corrupt = ownDohCancel(seed, atoi(m["n"]))
 	case "cachehot":
 		corrupt = ownCacheHot(seed, atoi(m["ops"]))
 	case "malformed":
@@ -538,6 +627,7 @@ func genOwnership(r *rand.Rand, thorough bool, emit func(c, cat string)) {
 		emit(fmt.Sprintf("scenario=prefetch n=%d seed=%d", per*10, r.Intn(1<<30)), "prefetch")
 		emit(fmt.Sprintf("scenario=cachehot ops=%d seed=%d", per*150, r.Intn(1<<30)), "cachehot")
 		emit(fmt.Sprintf("scenario=malformed n=%d seed=%d", per*15, r.Intn(1<<30)), "malformed")
+		emit(fmt.Sprintf("scenario=dohcancel n=%d seed=%d", per*2, r.Intn(1<<30)), "dohcancel")
 	}
 }
 
